@@ -5,6 +5,8 @@ package str
 import (
 	"bytes"
 	"fmt"
+	"math"
+	"runtime"
 	"strconv"
 	"strings"
 	"unicode"
@@ -128,13 +130,26 @@ func join(sep string, inputs eval.Inputs) (string, error) {
 	return buf.String(), errJoin
 }
 
-func repeat(s string, n int) (string, error) {
+func repeat(s string, n int) (result string, err error) {
 	if n < 0 {
 		return "", errs.BadValue{What: "n", Valid: "non-negative number", Actual: vals.ToString(n)}
 	}
-	if len(s)*n < 0 {
-		return "", errs.BadValue{What: "n", Valid: "small enough not to overflow result", Actual: vals.ToString(n)}
+	errTooLarge := errs.BadValue{What: "n", Valid: "small enough not to overflow result", Actual: vals.ToString(n)}
+	// Note that len(s)*n may wrap around to a non-negative number.
+	if len(s) > 0 && n > math.MaxInt/len(s) {
+		return "", errTooLarge
 	}
+	// A length that doesn't overflow can still be larger than what the
+	// runtime is able to allocate, in which case strings.Repeat panics with a
+	// runtime error instead of returning an error.
+	defer func() {
+		if r := recover(); r != nil {
+			if _, ok := r.(runtime.Error); !ok {
+				panic(r)
+			}
+			result, err = "", errTooLarge
+		}
+	}()
 	return strings.Repeat(s, n), nil
 }
 
